@@ -12,7 +12,7 @@ from vlib.shard import Acc
 PROP = "C17"
 META = {
     "level": "exploration",
-    "claim": "Held on the executed runs (virtual clock; ageing 0 / 0.5 / 2 / 10 s; prioritise = constant, by extension incl. negative, random table): (S1) every selection the sync loop makes returns an entry that is eligible by the stated rule (a change flag at least the ageing interval old, or negative priority), never passes over an eligible entry with a strictly smaller (priority, last-change-time) key, returns nothing only when nothing is eligible, and with ageing 0 every pending entry is eligible at once; (S3) no engine write for a non-negative-priority entry happens earlier than the ageing interval after the engine was last notified of a change to that entry - except in the situation of finding K11, recognised by an input-side predicate at selection time; (S4) a deferred entry is selected again within a bounded number of steps and a permanently failing entry does not keep the others from being synchronised.",
+    "claim": "Held on the executed runs (virtual clock; ageing 0 / 0.5 / 2 / 10 s; prioritise = constant, by extension incl. negative, random table): (S1) every selection the sync loop makes returns an entry that is eligible by the stated rule (a change flag at least the ageing interval old, or negative priority), never passes over an eligible entry with a strictly smaller (priority, last-change-time) key, returns nothing only when nothing is eligible, and with ageing 0 every pending entry is eligible at once; (S3) no engine write for a non-negative-priority entry happens earlier than the ageing interval after the engine was last notified of a change to that entry - except in the situation of finding K11, recognised by an input-side predicate at selection time; (S4) a deferred entry is selected again within a bounded number of steps and a permanently failing entry does not keep the others from being synchronised. (S5) no entry is propagated at once on the strength of a negative priority when the application's prioritise function gives the object's current path a non-negative one (decided where the changed side's events carry the path).",
     "note": "Trusted: the virtual clock (module-global time seam) advancing by each loop's own sleep; selections observed by wrapping SyncState.change, notifications by wrapping SyncState.update (class attributes, observation only). The clock ticks inside change(), so eligibility is judged with a tolerance of the ticks consumed by that call.",
     "technique": "runtime monitoring under a virtual clock: selection oracle at SyncState.change, notification-to-write latency ledger, bounded re-selection of deferred entries",
     "plan": {"quick": {"shards": 16, "timeout": 600, "cases": 4000},
@@ -71,6 +71,9 @@ class SchedMonitor(Monitor):
         self.s3_hits_k11 = 0
         self.s3_hits_k22 = 0
         self.s3_checked = 0
+        self.s5_checked = 0
+        self.s5_opportunities = 0
+        self.s5_hits_k29 = 0
         self.deferred = {}              # entry id -> step index when it was deferred
         self.max_reselect = 0
         self._ncalls = 0
@@ -78,6 +81,20 @@ class SchedMonitor(Monitor):
     def on_sim(self, sim, case):
         self.sim = sim
         _CUR[0] = self
+
+    def after_user(self, sim, rec):
+        self.note_user(sim, rec)
+
+    def note_user(self, sim, rec):
+        # reach of S5: renames that take an object out of an 'immediately' class on a side whose events carry the path
+        fn = sim.prioritize
+        if fn is None or rec.get("op") not in ("rename", "rendir") or not rec.get("ok") or not rec.get("to"):
+            return
+        side = rec["side"]
+        if sim.flavour[side] == "o":
+            return
+        if fn(side, sim.abspath(side, rec["path"])) < 0 <= fn(side, sim.abspath(side, rec["to"])):
+            self.s5_opportunities += 1
 
     def on_selection(self, state, age, ret, t0, t1):
         self.selections += 1
@@ -112,7 +129,14 @@ class SchedMonitor(Monitor):
         # input-side predicate of finding K11: which sides carry an aged flag at selection time
         aged = [bool(ret[s].changed and ret[s].changed <= hi) for s in (0, 1)]
         forced = any(ret[s].changed == 1 for s in (0, 1))       # SideState.set_aged(): the parent-first rule's marker
-        self.current = (id(ret), ret.priority, aged, t1, age, forced)
+        # S5 material: what the application's prioritise function says about the entry's *current* paths
+        fn = self.sim.prioritize if self.sim is not None else None
+        app = None
+        if fn is not None:
+            vals = [fn(s, ret[s].path) for s in (0, 1) if ret[s].path]
+            app = min(vals) if vals else None
+        fresh = [s for s in (0, 1) if ret[s].changed and ret[s].changed > hi]
+        self.current = (id(ret), ret.priority, aged, t1, age, forced, app, fresh)
         if id(ret) in self.deferred:
             d = self.sim.steps - self.deferred.pop(id(ret))
             self.max_reselect = max(self.max_reselect, d)
@@ -122,9 +146,21 @@ class SchedMonitor(Monitor):
         self._ncalls = len(sim.world.calls)
         if name != "S" or self.current is None:
             return
-        eid, prio, aged, tsel, age, forced = self.current
+        eid, prio, aged, tsel, age, forced, app, fresh = self.current
         self.current = None
         writes = [c for c in calls if c["op"] in S.WRITES and c.get("ok") and c.get("ev")]
+        if writes and age > 0 and prio < 0 and app is not None and app >= 0 and not any(aged):
+            # S5: propagated at once on the strength of a negative priority the application no longer gives to the object's
+            # path (it was renamed out of an 'immediate' class).  Decided only where the changed side's events carry the
+            # path (path-id or filtered flavours): with path-less events the engine learns the new path inside the sync step
+            # itself, and the harness reads the same stale path at selection time, so the clause is not observable there
+            self.s5_checked += 1
+            fl = self.sim.flavour if self.sim is not None else ""
+            if any(fl[s] == "o" for s in fresh) or not fresh:
+                self.s5_hits_k29 += 1           # counted as 'not decidable here', never a verdict
+            elif len(self.problems) < 4:
+                self.problems.append(("S5_propagated_at_once_but_the_applications_priority_for_its_current_path_is_not_negative",
+                                      prio, app, [O.brief_call(c) for c in writes[:2]]))
         if writes and prio >= 0 and age > 0:
             self.s3_checked += 1
             last = self.notified.get(eid)
@@ -223,6 +259,9 @@ def run(case, acc=None, count=True):
         acc.add("ageing_values", str(case.get("aging")))
         acc.add("prioritise", case.get("prio"))
         acc.count("s3_hits_attributed_K22", m.s3_hits_k22)
+        acc.count("s5_immediate_writes_with_non_negative_application_priority", m.s5_checked)
+        acc.count("s5_not_decidable_path_less_events", m.s5_hits_k29)
+        acc.count("s5_renames_out_of_an_immediate_class_on_path_carrying_sides", m.s5_opportunities)
         if m.s3_hits_k11:
             acc.known_hit("K11", dict(W.brief_case(case), ageing=case.get("aging")))
         if m.s3_hits_k22:
